@@ -148,6 +148,9 @@ class ReactionSummary(Summary):
                 | (self._flux["maximum"].abs() >= threshold),
                 :,
             ].copy()
+            if frame.empty:
+                # Everything is below the threshold: display zeros instead of failing.
+                frame = self._flux.where(self._flux.abs() >= threshold, 0.0)
             return (
                 f"{frame.at[self._reaction.id, 'flux']:{float_format}} "
                 f"[{frame.at[self._reaction.id, 'minimum']:{float_format}}; "
@@ -155,6 +158,9 @@ class ReactionSummary(Summary):
             )
         else:
             frame = self._flux.loc[self._flux["flux"].abs() >= threshold, :].copy()
+            if frame.empty:
+                # The flux is below the threshold: display zero instead of failing.
+                frame = self._flux.where(self._flux.abs() >= threshold, 0.0)
             return f"{frame.at[self._reaction.id, 'flux']:{float_format}}"
 
     def to_string(
